@@ -23,6 +23,12 @@ Families with a state-change callback (G recording, X / E raising) contain every
 and opposite direction) under both creation orders of the two stores, with amounts that take the donor (X: also the
 receiver) across a metabolic-state threshold - a notification issued anywhere inside the two-lock section is then
 exercised with either store holding the lower lock rank.
+Family K makes the construction of a store a scheduled step of its own: each thread constructs its store inside
+its body (the constructor's source lines are scheduling points like any other line of metabolism.py), publishes it,
+waits - visibly to the scheduler - until the stores its next call names exist, and then transfers (opposite / same
+direction, a peer that existed before, non-default constructor options; thorough: a three-store ring built by three
+threads). Whatever the constructor sets up for the two-lock section is thereby exercised under every interleaving of
+two constructors; the sequential reference constructs the stores in each order.
 Not asserted (counted and noted instead): getters are lock-free single reads, so a value *read*
 concurrently with a multi-write mutator may be an intermediate one; `apply_debt_interest` is not
 one of the operations the statement lists and is unsynchronised in the code.
@@ -237,6 +243,28 @@ for _c in E_CLASSES:
         OPTS[_n] = {"raising_cb": True}
         EPAIRS.append(_n)
 
+# --- K: construction is itself a scheduled step. A thread whose first op is ("construct", X) builds store X inside
+# its body; every later op of any thread first waits (a Latch: blocking is visible to the scheduler) until the stores
+# it names are published. Stores nobody constructs in a thread exist before the threads start, as everywhere else.
+K_CFG = {"A": (3, 0, 0, 0), "B": (3, 0, 0, 0)}
+K_CFG_OPTS = {"A": (4, 3, 3, 3, _GO), "B": (4, 3, 3, 0, _GO)}  # the G family's non-default constructor options
+K = {
+    "K:opposite": (K_CFG, [[("construct", "A"), ("transfer", "A", "B", 2, "ATP")],
+                           [("construct", "B"), ("transfer", "B", "A", 2, "ATP")]]),
+    "K:same-direction": (K_CFG, [[("construct", "A"), ("transfer", "A", "B", 2, "ATP")],
+                                 [("construct", "B"), ("transfer", "A", "B", 2, "ATP")]]),
+    "K:peer-exists": (K_CFG, [[("construct", "A"), ("transfer", "A", "B", 2, "ATP")],
+                              [("consume", "B", 1, "ATP", False), ("transfer", "B", "A", 2, "ATP")]]),
+    "K:opposite-options-gtp": (K_CFG_OPTS, [[("construct", "A"), ("transfer", "A", "B", 2, "GTP")],
+                                            [("construct", "B"), ("transfer", "B", "A", 2, "GTP")]]),
+}
+H.update(K)
+KPAIRS = list(K)
+# thorough: three threads, each constructs one store of a transfer ring and sends to the next one
+H["K3:ring"] = ({"A": (2, 0, 0, 0), "B": (2, 0, 0, 0), "C": (2, 0, 0, 0)},
+                [[("construct", "A"), ("transfer", "A", "B", 1, "ATP")], [("construct", "B"), ("transfer", "B", "C", 1, "ATP")],
+                 [("construct", "C"), ("transfer", "C", "A", 1, "ATP")]])
+
 # --- T (thorough): three-thread variants of the most contended P kinds (every multiset of three of the kinds that
 # debit, credit or convert into A's ATP pool; one kind per thread)
 T_KINDS = ["spend-topup", "spend-debt", "regen", "convert", "xfer-out"]
@@ -258,10 +286,10 @@ RINGS = [n for n in H if n.startswith("R")]
 def plan(tier):
     """[(harness, preemption bound)] at line granularity. quick: bound 2, except the wide G and E families at bound 1
     (one preemption = one thread stopped anywhere inside its call while the other runs its call to the end);
-    thorough: bound 3, except the G and E families and the three-thread rings and triples at bound 2."""
+    thorough: bound 3, except the G and E families and the three-thread rings (R*, K3) and triples at bound 2."""
     if tier == "quick":
-        return [(n, 2) for n in QUICK + PAIRS + DPAIRS + IPAIRS + XPAIRS] + [(n, 1) for n in GPAIRS + EPAIRS]
-    two = set(RINGS) | set(TRIPLES) | set(GPAIRS) | set(EPAIRS)
+        return [(n, 2) for n in QUICK + PAIRS + DPAIRS + IPAIRS + XPAIRS + KPAIRS] + [(n, 1) for n in GPAIRS + EPAIRS]
+    two = set(RINGS) | set(TRIPLES) | set(GPAIRS) | set(EPAIRS) | {"K3:ring"}
     return [(n, 2 if n in two else 3) for n in H]
 
 
@@ -277,9 +305,31 @@ def install_locks(obj):
     return sched.install_locks(obj)
 
 
+class Latch(sched.CoopLock):
+    """One-shot flag the scheduler treats as blocking: wait() takes the calling logical thread off the set of
+    schedulable threads until set() was called (no spinning; a flag nobody will ever set is a detected deadlock)."""
+
+    def __init__(self, name, why):
+        super().__init__(False, name)
+        self.owner, self.count = f"[{why}]", 1
+
+    def set(self):
+        self.owner, self.count = None, 0
+
+    def wait(self):
+        while self.owner is not None:
+            s = sched.ACTIVE
+            me = s.current() if s is not None else None
+            if me is None:
+                raise sched.HangDetected(f"{self.name}: waited for outside the scheduler")
+            s.block(me, self)
+
+
 class Stores(dict):
     logs: dict  # store name -> notifications recorded by its callback
     cbs: dict   # store name -> the callback it was constructed with (harness-side handle, for ("set", .., "cb"))
+    cfgs: dict  # store name -> configuration (stores named by a ("construct", name) op are built by that op)
+    latches: dict  # store name -> Latch set once the thread constructing it has published it (scheduled runs only)
 
 
 def _recorder(stores, name, log, raises):
@@ -292,30 +342,52 @@ def _recorder(stores, name, log, raises):
     return on_state_change
 
 
-def mk_stores(cfgs, order=None):
+def mk_store(stores, name):
+    """construct one store from its configuration, put the scheduler-aware locks in, publish it under its name"""
+    cfg = stores.cfgs[name]
+    b, g, n, d = cfg[:4]
+    o = cfg[4] if len(cfg) > 4 else {}
+    kw = {}
+    if "interest" in o:
+        kw["debt_interest"] = o["interest"]
+    if o.get("cb"):
+        log = stores.logs[name] = []
+        raises = None if o["cb"] is True else ("ValueError", None) if o["cb"] == "raise" else tuple(o["cb"][1:3])
+        kw["on_state_change"] = _recorder(stores, name, log, raises)
+    s = ATP_Store(budget=b, gtp_budget=g, nadh_reserve=n, max_debt=d, silent=o.get("silent", True), **kw)
+    # scheduler-aware locks everywhere, also in the sequential reference runs: there a call that
+    # re-acquires a lock it already holds raises HangDetected instead of hanging the check
+    install_locks(s)
+    stores.cbs[name] = kw.get("on_state_change")
+    stores[name] = s
+    return s
+
+
+def mk_stores(cfgs, order=None, deferred=()):
+    """deferred: names left to a ("construct", name) op of the harness"""
     stores = Stores()
     stores.logs = {}
     stores.cbs = {}
+    stores.cfgs = cfgs
+    stores.latches = {}
     for name in (order or list(cfgs)):
         if name == "_":
             ATP_Store(budget=1, silent=True)  # unrelated instance: takes a lock rank
             continue
-        b, g, n, d = cfgs[name][:4]
-        o = cfgs[name][4] if len(cfgs[name]) > 4 else {}
-        kw = {}
-        if "interest" in o:
-            kw["debt_interest"] = o["interest"]
-        if o.get("cb"):
-            log = stores.logs[name] = []
-            raises = None if o["cb"] is True else ("ValueError", None) if o["cb"] == "raise" else tuple(o["cb"][1:3])
-            kw["on_state_change"] = _recorder(stores, name, log, raises)
-        s = ATP_Store(budget=b, gtp_budget=g, nadh_reserve=n, max_debt=d, silent=o.get("silent", True), **kw)
-        # scheduler-aware locks everywhere, also in the sequential reference runs: there a call that
-        # re-acquires a lock it already holds raises HangDetected instead of hanging the check
-        install_locks(s)
-        stores[name] = s
-        stores.cbs[name] = kw.get("on_state_change")
+        if name not in deferred:
+            mk_store(stores, name)
     return stores
+
+
+def deferred_of(threads):
+    return tuple(op[1] for t in threads for op in t if op[0] == "construct")
+
+
+def stores_named(op):
+    """the stores a call needs to exist"""
+    if op[0] == "construct":
+        return ()
+    return (op[1], op[2]) if op[0] in ("transfer", "xfer_debit", "xfer_credit") else (op[1],)
 
 
 def guarded(fn, *args):
@@ -357,6 +429,9 @@ def run_setup(stores, setup):
 
 def apply(stores, op):
     k = op[0]
+    if k == "construct":  # the constructor call itself is the operation
+        mk_store(stores, op[1])
+        return None
     s = stores[op[1]]
     if k == "consume":
         return s.consume(op[2], "op", ET[op[3]], allow_debt=op[4], **({"priority": op[5]} if len(op) > 5 else {}))
@@ -466,8 +541,9 @@ def sequential_outcomes(cfgs, threads, split, setup=(), order=None):
             else:
                 ts.append(op)
         steps.append(ts)
+    deferred = deferred_of(threads)
     for order_ in interleavings([len(t) for t in steps]):
-        stores = mk_stores(cfgs, order)
+        stores = mk_stores(cfgs, order, deferred)
         bad = run_setup(stores, setup)
         if bad:
             return {("sequential-setup", f"{bad[0]} -> {bad[1]}")}
@@ -480,7 +556,14 @@ def sequential_outcomes(cfgs, threads, split, setup=(), order=None):
         for tid in order_:
             op = steps[tid][pos[tid]]
             pos[tid] += 1
-            if op[0] == "xfer_debit":
+            if any(n not in stores for n in stores_named(op)):
+                break  # not an order of the calls: this one waits until the stores it names are constructed
+            if op[0] == "construct":
+                r = guarded(apply, stores, op)
+                if is_hang(r) or is_raised(r):
+                    return {("sequential-setup", f"{op} -> {r}")}
+                rets[tid].append(r)
+            elif op[0] == "xfer_debit":
                 r = pend[tid] = guarded(stores[op[1]].transfer_to, sink, op[3], ET[op[4]])
             elif op[0] == "xfer_credit":
                 r = pend.pop(tid)
@@ -494,7 +577,8 @@ def sequential_outcomes(cfgs, threads, split, setup=(), order=None):
                 rets[tid].append(r)
             if is_hang(r):
                 return {("sequential-hang", f"{op}: {r[1]}")}
-        outs.add((tuple(tuple(r) for r in rets), final(stores)))
+        else:
+            outs.add((tuple(tuple(r) for r in rets), final(stores)))
     return outs
 
 
@@ -503,13 +587,30 @@ def make_factory(name):
     order = OPTS.get(name, {}).get("order")
     do = call if OPTS.get(name, {}).get("raising_cb") else apply
 
+    deferred = deferred_of(threads)
+
     def make():
-        stores = mk_stores(cfgs, order)
+        stores = mk_stores(cfgs, order, deferred)
+        stores.latches = {n: Latch(f"store-{n}-published", f"store {n} is not constructed yet") for n in deferred}
         run_setup(stores, SETUP.get(name, ()))  # a failing setup call is judged by judge_factory (sequential-setup)
+
+        def step(op):
+            if op[0] == "construct":
+                p0 = sched.ACTIVE.npoints if sched.ACTIVE is not None else 0
+                try:
+                    return do(stores, op)  # constructor lines are scheduling points; locks installed before publishing
+                finally:
+                    make.ctor_points[op[1]] = (sched.ACTIVE.npoints if sched.ACTIVE is not None else 0) - p0
+                    stores.latches[op[1]].set()  # also when the constructor raised: nobody waits for ever
+            for n in stores_named(op):
+                if n in stores.latches:
+                    stores.latches[n].wait()
+            missing = [n for n in stores_named(op) if n not in stores]
+            return ("no-store", missing) if missing else do(stores, op)
 
         def body(ops):
             def run():
-                return tuple(do(stores, op) for op in ops)
+                return tuple(step(op) for op in ops)
             return run
 
         def finish(ex):
@@ -518,6 +619,10 @@ def make_factory(name):
             return (rets, final(stores))
 
         locking = {n: getter_takes_lock(s) for n, s in stores.items()}
+        if deferred:  # decided on sequentially constructed twins (a store built inside a thread cannot be probed there)
+            twins = guarded(mk_stores, {n: cfgs[n] for n in deferred})
+            if isinstance(twins, Stores):
+                locking.update({n: getter_takes_lock(s) for n, s in twins.items()})
 
         def invariant():
             # what user code can see at this moment: the public balance attributes and the debt getter (lock-free in
@@ -528,9 +633,9 @@ def make_factory(name):
             # second lock acquisition of one source line comes from ordinary code; no store field changed since the
             # line point before it, so nothing is lost by reading only the public attributes there.)
             in_tracer = _under_trace_callback()
-            for n, s in stores.items():
+            for n, s in list(stores.items()):
                 debt = 0
-                if not locking[n] and in_tracer:
+                if not locking.get(n, True) and in_tracer:
                     debt = guarded(s.get_debt)
                     if not isinstance(debt, (int, float)):
                         debt = 0  # a failing getter is judged on the end state (final)
@@ -542,6 +647,7 @@ def make_factory(name):
         return [body(t) for t in threads], finish
 
     make.invariant = None
+    make.ctor_points = {}  # store name -> scheduling points passed between entering and leaving its constructor
     return make
 
 
@@ -577,8 +683,10 @@ def judge_factory(name):
     with contextlib.redirect_stdout(_Null()):
         strict = sequential_outcomes(cfgs, threads, split=False, setup=setup, order=order)
         split = sequential_outcomes(cfgs, threads, split=True, setup=setup, order=order)
-        start = mk_stores(cfgs, order)
+        start = mk_stores(cfgs, order, deferred_of(threads))
         run_setup(start, setup)
+        for n in deferred_of(threads):
+            guarded(mk_store, start, n)
     hang = [o for o in strict if o and o[0] == "sequential-hang"]
     bad_setup = [o for o in strict if o and o[0] == "sequential-setup"]
     kinds = {op[0] for t in threads for op in t}
@@ -709,7 +817,7 @@ def crossing_transfers(cfg, setup, ops):
 
 
 def _is_small(name):
-    return name[:2] in ("P:", "G:", "D:", "I:", "T:", "X:", "E:")
+    return name[:2] in ("P:", "G:", "D:", "I:", "T:", "X:", "E:", "K:")
 
 
 def run(ctx):
@@ -726,6 +834,16 @@ def run(ctx):
     for fam, c in crossing.items():
         if not c["donor"]:
             ctx.defer_harness_error(f"family {fam}: no transfer kind takes a donor with a callback across a state threshold")
+    # sanity: in the K family the constructor must really run under the scheduler (measured on the default schedule,
+    # where each constructor runs without interruption)
+    mk = make_factory(KPAIRS[0])
+    try:
+        sched.run_schedule(mk, (), trace_files=TRACE)
+    except Exception:  # noqa: BLE001 - judged by the exploration below
+        pass
+    ctx.coverage["constructor_scheduling_points"] = dict(mk.ctor_points)
+    if not mk.ctor_points or min(mk.ctor_points.values()) < 2:
+        ctx.defer_harness_error(f"family K: the constructor passes {mk.ctor_points} scheduling points - construction is not interleaved")
     big = [x for x in todo if not _is_small(x[0])]
     small = [x for x in todo if _is_small(x[0])]
     results = []
@@ -795,7 +913,8 @@ def run(ctx):
              "hand-picked collisions S*, lock-rank variants and three-store transfer rings R*, all unordered pairs of "
              "operation kinds from several start states (P: ATP mid state; G: three currencies, debt carried, silent=False, "
              "state-change callback, getters; D: starving/dormant with priorities; X: raising state-change callback; "
-             "E: class and message of the exception the callback raises; I: apply_debt_interest, advisory), every transfer||transfer pair of a family under both creation orders of "
+             "E: class and message of the exception the callback raises; I: apply_debt_interest, advisory; K: each thread "
+             "constructs its own store as a scheduled step, publishes it, waits for its peer's, then transfers), every transfer||transfer pair of a family under both creation orders of "
              "the two stores (@r), "
              "three-thread multisets T* (thorough); distinct = distinct (harness, outcome) pairs; "
              "'states' = sum over harnesses of the maximum number of scheduling choice points in one execution",
@@ -804,6 +923,7 @@ def run(ctx):
         harness_count=len(per),
         preemption_bound=bound,
         op_kinds={"P": len(PAIR_OPS), "G": len(G_OPS), "D": len(D_OPS), "X": len(X_OPS), "I": len(I_OPS), "T": len(T_KINDS)},
+        construction_harnesses=KPAIRS + (["K3:ring"] if ctx.tier == "thorough" else []),
         callback_exception_classes=list(E_CLASSES),
     )
     ctx.assumptions += [
